@@ -124,7 +124,7 @@ func driveErrors(args []string) error {
 	w := newChunkWriter(*out, *chunk)
 	defer w.close()
 	r := rand.New(rand.NewSource(*seed))
-	roots := []string{"", "root", "a.b"}
+	roots := []string{"", "root", "a.b", "r%s"}
 	distinct := map[string]struct{}{}
 	nontrivial := map[string]struct{}{}
 	var samples []interface{}
